@@ -28,16 +28,20 @@ LEAN_MODULES = ['VotelibProofs.Props.C20']
 GEN_MODULES = []
 REQUIRED = [
     'nominate_ok_iff_admits', 'nominate_rejects_with_candidateError',
-    'bounds_inclusive', 'bounds_check_iff_within', 'bounds_crossing_rejects_all', 'boundMap_get_default',
+    'bounds_inclusive', 'bounds_inclusive_ends', 'bounds_one_sided', 'bounds_check_iff_within',
+    'bounds_crossing_rejects_all', 'bounds_none_accepts_all', 'boundMap_get_default',
     'validate_iff_valid_simple', 'validate_iff_valid_approval',
-    'validate_iff_valid_ranked_anyset', 'validate_iff_valid_ranked_partial', 'validate_iff_valid_ranked_witness',
-    'validate_iff_valid_enumscore', 'validate_iff_valid_range',
+    'validate_iff_valid_ranked_anyset', 'validRanked_iff_anyset', 'validate_iff_valid_ranked_partial',
+    'validate_iff_valid_ranked_witness',
+    'validateScoreBase_iff', 'validate_iff_valid_enumscore', 'validate_iff_valid_range', 'validate_iff_valid_key',
     'rejections_are_library_errors_simple', 'rejections_are_library_errors_approval',
-    'rejections_are_library_errors_ranked',
+    'rejections_are_library_errors_ranked', 'scoreBase_typeError',
     'rejections_are_library_errors_enumscore_partial', 'rejections_are_library_errors_enumscore_witness',
     'rejections_are_library_errors_range_partial', 'rejections_are_library_errors_range_witness',
     'eliminator_ok_removes_exactly_rejected', 'eliminator_removes_exactly_rejected_partial',
-    'eliminator_removes_exactly_rejected_witness',
+    'eliminator_removes_exactly_rejected_witness', 'eliminator_raises_only_escaped_errors', 'eliminator_keeps_counts',
+    'approval_candidateError_iff', 'approval_voteError_iff', 'scoreBase_typeError_iff', 'enumscore_typeError_iff',
+    'valid_approval_perm', 'validScoreBase_perm', 'valid_enumscore_perm', 'valid_range_perm', 'accept_order_independent',
 ]
 UNPROVED = [
     'validate_iff_valid_ranked (false of the code: a mutable set at a rank is accepted; see _partial/_witness)',
@@ -963,15 +967,15 @@ def gen_eliminate(rng, tags):
 def _gen(rng, tier):
     for c in directed(rng):
         yield c
-    n_main = 2500 if tier == 'quick' else 60000
+    n_main = 9000 if tier == 'quick' else 60000
     for _ in range(n_main):
         tags = []
         val, vote = gen_any(rng, tags)
         yield mk_case(val, vote, tags)
-    for _ in range(600 if tier == 'quick' else 15000):
+    for _ in range(2500 if tier == 'quick' else 15000):
         vt = rng.choice(['simple', 'approval', 'ranked', 'enum', 'range'])
         yield mk_case(random_val(rng, vt), gen_obj(rng), ['malformed_stream'])
-    for _ in range(500 if tier == 'quick' else 10000):
+    for _ in range(1500 if tier == 'quick' else 10000):
         yield gen_eliminate(rng, [])
     if tier == 'thorough':
         for c in exhaustive():
